@@ -45,6 +45,7 @@ NOTES = {
  "C09-7": "round 3; first missed; TERMINAL-CTX-CAPTURED added", "C09-8": "round 3; first missed; SLOT-CTX-STABLE added", "C09-9": "round 3; first missed; CTX-TUPLE-WHOLE added",
  "C03-7": "round 3", "C03-8": "round 3; first missed; DOWNSTREAM-LINK added", "C03-9": "round 3; first missed; I/O plugins armed for the core properties (which found and repaired HTTPRequest's re-subscription defect) and CANCEL-OBSERVED added; patch re-based on that repair",
  "C11-7": "round 3; first missed; RESET-RELEASES/reset-decided-by-config added", "C11-8": "round 3; first missed; REFCOUNT-PAIRING/decrement-on-every-return added", "C11-9": "round 3; first missed; SUBJECT-DELIVERS/replay-register-atomic added, SUBJECT-DELIVERS joined C11",
+ "C11-10": "round 3 (extra change of the C11 agent: identity guards of Share's reset removed; its demonstration needs a hand-written Observable)",
  "C06-7": "round 3", "C06-8": "round 3", "C06-9": "round 3; NOT reported: plugins/websocket/client is not loaded (its gorilla/websocket requirement only resolves in the full workspace with the example modules, which need modules that are not cached) and websocketSubject is a hand-written Observable outside the subscribe-closure model",
  "C07-7": "round 3; first missed by C07; NO-EMIT-UNDER-TEARDOWN-LOCK joined C07 (the property names locks left held)", "C07-8": "round 3; first missed by C07; SHARE-REPLAY-CONFIG joined C07", "C07-9": "round 3; first missed; TERMINAL-RELEASE-AGREEMENT added",
  "C10-7": "round 3", "C10-8": "round 3; NOT reported: replay buffer guard `!= Unlimited` rewritten as `> 0` (size 0 becomes unlimited) - a boundary value of a configuration parameter, not decided", "C10-9": "round 3",
